@@ -69,7 +69,7 @@ func initProfDB(
 	profDB *profiledb.Default,
 	timeout time.Duration,
 ) (err error) {
-	ctx, cancel := context.WithTimeout(ctx, timeout)
+	ctx, cancel := ctxWithOptionalTimeout(ctx, timeout)
 	defer cancel()
 
 	mainLogger.InfoContext(ctx, "initial profiledb refresh")
